@@ -2,12 +2,12 @@
 ID = 'C19'
 LEVEL = 'exploration'
 LEVEL_TEXT = ('bounded: (A) on generated sheets with url() in every context (style rule at top level / in @media / nested @media, @page, margin boxes, @font-face), several per value, inside function '
-              'arguments up to three function levels deep, repeated properties, 0-2 @import rules: list(getUrls(sheet)) == imports then url() values in document order, replaceUrls calls the replacer exactly once per URL, the identity '
+              'arguments up to three function levels deep, inside each of the 14 IE filter function names the value parser reads by a production of its own (mask(, alpha(, glow(, ... alone, nested in / around ordinary functions and each other), repeated properties, 0-2 @import rules: list(getUrls(sheet)) == imports then url() values in document order, replaceUrls calls the replacer exactly once per URL, the identity '
               'replacer is a no-op on cssText and DOM, a tagging replacer changes exactly the URLs (also with ignoreImportRules and on a CSSStyleDeclaration); (B) cssutils.Replacer over all pairs of '
               'import hrefs and URLs of <= 3 path segments incl. . and .. and the special URL forms, and over the dot-like names (.h, ..u, ..., k. - ordinary names that look like dot segments) at every position of '
               'URLs of <= 3 segments and import hrefs of <= 2 directories, also as file name of the import; (C) resolveImports and csscombine (minified and normal) over virtual file systems served by a counting '
               'fetcher - single imports over 15 target locations (incl. a dot directory, a dot file, a directory named ...) x 6 media x 9 target bodies + missing, import chains of depth <= 3 (quick) / <= 4 (thorough), branching trees with unwrappable and missing '
-              'targets, every URL form, 72 URLs with a dot-like last segment and url() at function depth 1-3 in imported sheets, cycles, several source/target encodings - equal the oracle expansion, every URL compared after urljoin, each target fetched once; '
+              'targets, every URL form, 72 URLs with a dot-like last segment, url() at function depth 1-3 and url() inside every IE filter function name in imported sheets, cycles, several source/target encodings - equal the oracle expansion, every URL compared after urljoin, each target fetched once; '
               '(D) resolveImports on trees edited through the DOM between parsing and flattening (media of an edge set in every way the DOM offers over all pairs of media, edges retargeted / inserted / deleted, '
               'rules of an imported sheet added / deleted) equals the expansion of the edited file system')
 LEVEL_NOTE = ('the expected flat sheet is computed from the virtual file system alone (bounded/c19.py expand): cascade order, media wrapping, @import kept for missing / cyclic targets and for groups holding '
